@@ -39,6 +39,8 @@ def run(ctx):
     missing = [n for n in need if not fired.get(n)]
     if missing and not ctx.violations:
         raise core.Inconclusive("injection never fired for %s" % missing)
+    if tot.get("sleeps_longer_than_1s", 0) < 2:
+        raise core.Inconclusive("no interrupted sleep longer than one second was driven")
     if tot.get("cases_with_signal_during_call", 0) < tot.get("signal_cases", 0) * 0.5:
         raise core.Inconclusive("signals rarely landed inside calls")
     ctx.assumptions += ["nanosleep is wrapped too but this build uses clock_nanosleep (injection there never fires and is not required)",
